@@ -13,7 +13,8 @@
 From Coq Require Import List ZArith Bool.
 Import ListNotations.
 From TI Require Import lib.Term lib.TermFacts lib.Rect lib.Lines model.Block model.GfxRender
-     proofs.BlockRect proofs.GfxRect.
+     proofs.BlockRect proofs.GfxRect
+     model.RenderSession model.RenderTie model.RenderSessionTie proofs.RenderSessionProofs.
 Open Scope Z_scope.
 
 (** block style: every pixel content, alpha mode, kitty work-around, terminal background,
@@ -62,3 +63,55 @@ Theorem C01_fits :
     exists evs, log (exec lm t R) = log t ++ evs /\ fits_noscroll W H top evs = true.
 Proof. exact (rect_fits all_cells). Qed.
 Print Assumptions C01_fits.
+
+(** ** Sessions: "the render output of an image" is EVERY render output an instance hands
+    out -- the N-th render after earlier renders of the same instance that completed or were
+    interrupted at any point (model/RenderSession.v: a session is a list of requests, each
+    with an optional cut position; an interrupted request yields nothing). *)
+
+(** a completed request yields the render of its own parameters, whatever was requested,
+    completed or interrupted (at any position) before and after it *)
+Theorem C01_session_pure :
+  forall (s1 : list req) (r : req) (s2 : list req),
+    r_cut r = None ->
+    nth_error (session (s1 ++ r :: s2)) (length s1) = Some (Some (p_render (r_par r))).
+Proof. exact session_pure. Qed.
+Print Assumptions C01_session_pure.
+
+Theorem C01_session_outputs :
+  forall s : list req,
+    session_outputs s =
+    map (fun r => (r, p_render (r_par r))) (filter (fun r => negb (interrupted r)) s).
+Proof. exact session_outputs_spec. Qed.
+Print Assumptions C01_session_outputs.
+
+(** every render output yielded by every session (all three styles, every method)
+    satisfies the rectangle contract of its own request *)
+Theorem C01_session_rect :
+  forall s : list req,
+    (forall r, In r s -> interrupted r = false -> p_wf (r_par r)) ->
+    forall r out, In (r, out) (session_outputs s) ->
+      Rect (p_w (r_par r)) (p_h (r_par r)) out.
+Proof. exact session_rect. Qed.
+Print Assumptions C01_session_rect.
+
+Theorem C01_session_fits :
+  forall s : list req,
+    (forall r, In r s -> interrupted r = false -> p_wf (r_par r)) ->
+    forall r out, In (r, out) (session_outputs s) ->
+    forall W H top lm t,
+      clean t -> col t = lm -> sgr t = adefault ->
+      0 <= lm -> lm + p_w (r_par r) <= W -> top <= row t -> row t + p_h (r_par r) <= top + H ->
+      exists evs, log (exec lm t out) = log t ++ evs /\ fits_noscroll W H top evs = true.
+Proof. exact session_fits. Qed.
+Print Assumptions C01_session_fits.
+
+(** soundness of the executable session comparison used by the correspondence: when the
+    observed yields of a session equal the session model's, every observed completed
+    output satisfies the contract for its advertised size *)
+Theorem C01_session_tie_sound :
+  forall sc : list sstep,
+    yields_eqb (session (map req_of sc)) (map observed sc) && forallb req_okb sc = true ->
+    forall t, In (SDone t) sc -> Rect (t_w t) (t_h t) (t_obs t).
+Proof. exact session_tie_sound. Qed.
+Print Assumptions C01_session_tie_sound.
